@@ -21,14 +21,21 @@
 (* 2. TRACE VALIDATION (PathTrace.cfg).  The recorded ndjson holds, per    *)
 (*    pathline (field tid):                                                *)
 (*      Call   scen, interior, out = "returned" | "ValueError" | "other:X" *)
+(*             | "NoReturn" (the call used up 20 000 velocity evaluations, *)
+(*             50 x what any returning call needs: it does not return)     *)
 (*      Stamps nT, incr (timestamps strictly increasing), tLast0 (last     *)
 (*             timestamp is 0), endDev_e12 = |x(0) - x_final| / box size   *)
 (*             in 1e-12                                                    *)
 (*      Seg k  (k = 1..NSeg, equal parts of the time span, oldest first)   *)
-(*             ode_e6 = max |dx/dt - u(x)| / max |u| in 1e-6 (central      *)
-(*             differences on the interpolant, interior 96 % of the span), *)
+(*             ode_e6 = max |dx/dt - u(x)| / max |u| in 1e-6: central      *)
+(*             differences on the interpolant at the middle of each of its *)
+(*             steps, on the interior 96 % of the time span, where the     *)
+(*             path is inside the box, excluding the step in which it      *)
+(*             leaves the box (the integrated field is discontinuous       *)
+(*             there),                                                     *)
 (*             out_e6 = excursion outside the box / box size in 1e-6,      *)
 (*             dStrain_e6 = tensorial strain accumulated over the part     *)
+(*             (strain_increment of the gradient callable, inside the box) *)
 (*      End                                                                *)
 (*    The machine below consumes the lines in order.  It carries the       *)
 (*    scenario of the open pathline and the strain accumulated so far      *)
